@@ -372,7 +372,14 @@ def h3_saverestore(timeout=200, part=None, **kw):
         _emit_state(ex, prog, "x", x, nx)
         prog.append(("S", "q", []))
         _emit_state(ex, prog, "yy", y, ny)
+        pre = Model()                          # the colour spaces in force after X are the ones Q has to bring back: a colour set after Q takes as many operands as THEY have
+        for kind, o, a in prog:
+            if kind == "S" and o == "q":
+                break                              # only X counts: what follows q is undone by Q
+            if kind == "S":
+                pre.state_op(o, a)
         prog += [("C", "m", [r("a0"), r("a1")]), ("C", "l", [r("a2"), r("a3")]), ("P", "S", []), ("S", "Q", [])]
+        prog += [("S", "sc", [r("n%d" % i) for i in range(pre.ncs)]), ("S", "SC", [r("s%d" % i) for i in range(pre.scs)])]
         prog += [("C", "m", [r("z0"), r("z1")]), ("C", "l", [r("z2"), r("z3")]), ("P", "S", [])]
         info = {"prog": [(k, o) for k, o, _ in prog], "args": [[v if isinstance(v, (str, list, int)) and not isinstance(v, (SV, SI)) else ("sym", str(v.e)) for v in a] for _, _, a in prog]}
         for kind, o, a in prog:
@@ -397,7 +404,7 @@ def h3_saverestore(timeout=200, part=None, **kw):
     P = pi.PDFPageInterpreter
     return core.run_symx("H3_saverestore", fn, [P.do_q, P.do_Q, pi.PDFGraphicState.copy, P.get_current_state, P.set_current_state, P.do_w, P.do_d, P.do_cm, P.do_g, P.do_G, P.do_rg, P.do_RG, P.do_k, P.do_K,
                                                 P.do_cs, P.do_CS, P.do_sc, P.do_scn, P.do_SC, P.do_SCN],
-                         {"program": "X ; q ; Y ; m l S ; Q ; m l S with X, Y from %s" % [o for o, _ in STATE_OPS], "operands": "symbolic reals (cm axis-aligned)"},
+                         {"program": "X ; q ; Y ; m l S ; Q ; sc SC ; m l S with X, Y from %s" % [o for o, _ in STATE_OPS], "operands": "symbolic reals (cm axis-aligned)"},
                          timeout, concretize=conc, shims={"namespace_shims": shims}, part=part)
 
 
